@@ -55,3 +55,10 @@ CORPUS += [
     Mut('c12-benign-unit-grid-scaled-by-the-origin', 'torchtree/evolution/bdsk.py', 'PiecewiseConstantBirthDeath.log_prob', 'dtimes = (origin / m).expand(origin.shape[:-1] + (m,))',
         'dtimes = (origin / m).expand(origin.shape[:-1] + (m,))\ngrid_check = torch.linspace(0.0, 1.0, m + 1) * origin', benign=True),
 ]
+CORPUS += [
+    Mut('c12-sufficient-statistics-by-weighted-bincount', 'torchtree/evolution/bdsk.py', 'PiecewiseConstantBirthDeath.log_prob', 'dtimes = (origin / m).expand(origin.shape[:-1] + (m,))',
+        'dtimes = (origin / m).expand(origin.shape[:-1] + (m,))\nacc = torch.bincount(torch.zeros(m, dtype=torch.long), weights=dtimes.reshape(-1)[:m], minlength=m)',
+        expect=[('C12.D', 'PiecewiseConstantBirthDeath.log_prob::no-derivative')]),
+    Mut('c12-benign-event-counts-by-bincount', 'torchtree/evolution/bdsk.py', 'PiecewiseConstantBirthDeath.log_prob', 'dtimes = (origin / m).expand(origin.shape[:-1] + (m,))',
+        'dtimes = (origin / m).expand(origin.shape[:-1] + (m,))\nacc = torch.bincount(torch.zeros(m, dtype=torch.long), minlength=m)', benign=True),
+]
